@@ -19,11 +19,16 @@ def mk_points(t):
     return Points(torch.tensor(t["c"], dtype=torch.float64), mk_space(t["sp"]))
 
 
+def _cell(v):
+    """a cell as integer; non-finite values (a quotient by a zero cell) and huge ones become the sentinel 2^30 (such events are not judged)"""
+    return int(round(v)) if v == v and abs(v) < 2 ** 30 else 2 ** 30
+
+
 def tab(p):
     t = p.as_tensor.detach()
     return {"sp": [[k, int(v)] for k, v in p.space.items()], "sh": [int(v) for v in p.shape],
-            "c": [[int(round(v)) for v in row] for row in t.tolist()] if t.dim() == 2 else
-                 [[[int(round(v)) for v in row] for row in blk] for blk in t.tolist()] if t.dim() == 3 else "deep"}
+            "c": [[_cell(v) for v in row] for row in t.tolist()] if t.dim() == 2 else
+                 [[[_cell(v) for v in row] for row in blk] for blk in t.tolist()] if t.dim() == 3 else "deep"}
 
 
 def rsel(s, n_op):
@@ -103,7 +108,7 @@ def run_one(s):
         t = heap[op["t"] - 1]
         u = heap[op["u"] - 1] if op["u"] else None
         if t is None or (op["u"] and u is None):      # operand is the result of a call that failed earlier
-            if a not in ("set", "eq", "space", "badcat", "to") and len(heap) < 9:
+            if a not in ("set", "eq", "space", "badcat", "to", "iter") and len(heap) < 9:
                 heap.append(None)
             continue
         ins = [t] + ([u] if u is not None else [])
@@ -145,9 +150,11 @@ def run_one(s):
         elif a == "unsq":
             r = watched(lambda: t.unsqueeze(op["n"]))
         elif a == "arith":
-            r = watched(lambda: {"add": t + u, "sub": t - u, "mul": t * u}[op["op"]])
+            r = watched(lambda: {"add": lambda: t + u, "sub": lambda: t - u, "mul": lambda: t * u, "div": lambda: t / u, "pow": lambda: t ** u}[op["op"]]())
         elif a == "eq":
             r = watched(lambda: bool(t == u))
+        elif a == "iter":
+            r = watched(lambda: [tab(q) for q in t])
         elif a == "space":
             def sp():
                 p = t.space * u.space
@@ -158,10 +165,12 @@ def run_one(s):
             raise ValueError(a)
         if r[0] != "ok":
             e["exc"] = r[1] if len(r) > 1 else "hang"
-            if a not in ("set", "eq", "space", "badcat", "to") and len(heap) < 9:
+            if a not in ("set", "eq", "space", "badcat", "to", "iter") and len(heap) < 9:
                 heap.append(None)
         elif a == "eq":
             e["eq"] = r[1]
+        elif a == "iter":
+            e["rows_out"] = r[1]
         elif a == "space":
             e.update(r[1])
         elif a == "badcat":
